@@ -507,3 +507,38 @@ def check_radix_dtor(ctx, unit, rule="O6.radix-dtor"):
             problems.append("no descent into child links found")
         ctx.inst(rule, TREE + "::~rcu_radixtree", not problems, f.loc,
                  "; ".join(problems) if problems else "%d element destructions guarded by the mask bit; both node kinds released; links cleared before descent" % len(dts), f)
+
+
+def check_entry_reuse(ctx, unit):
+    """erase() only clears the presence bit: the value is neither destroyed nor handed back.  find_or_insert() later
+    placement-constructs a new value into that very slot: a new object is constructed over one that was never destroyed
+    (its resources leak), the destructor of the tree skips slots with a clear bit, and a reader that obtained the address
+    before the erase watches the constructor run.  Either erase (after a grace period the caller can signal) or the
+    re-insertion has to end the old value's lifetime."""
+    ctx.rule("O.entry-reuse", "a slot of an existing leaf is constructed into only if the value it held before was destroyed: "
+             "erase() (or the re-inserting path) runs the destructor of the erased value", 1)
+    er = _fn(unit, "erase")
+    fi = _fn(unit, "find_or_insert")
+    for f in er[:1]:
+        dtors = [n for n in f.events() if (n.is_call() and n.callee and (n.callee.get("kind") == "dtor" or n.callee["uq"] in ("frg::destruct",)))
+                 or n.kind in ("CXXPseudoDestructorExpr",)]
+        g = fi[0]
+        fresh = fresh_nodes(g)
+        al = local_aliases(g)
+        reuse = []
+        redestroy = False
+        for n in g.events():
+            if n.kind == "CXXNewExpr" and n.get("placement"):
+                pp = path(g.node(n.get("pargs")[0]))
+                if pp and "entries" in pp:
+                    d = resolve_alias(al, root_did(pp)) if root_did(pp) is not None else None
+                    if d not in fresh:
+                        reuse.append(n)
+        for n in g.events():
+            if n.is_call() and n.callee and n.callee.get("kind") == "dtor":
+                redestroy = True
+        ok = bool(dtors) or redestroy or not reuse
+        ctx.inst("O.entry-reuse", TREE + "::erase / find_or_insert", ok, f.loc,
+                 ("erase() runs no destructor and find_or_insert() constructs into the slot of an existing leaf at %s: insert(k); erase(k); "
+                  "insert(k) constructs a new value over a live one and the erased value is never destroyed" % reuse[0].loc) if not ok else
+                 "erased values are destroyed before their slot is reused", f)
